@@ -57,6 +57,15 @@ let pos = ref 0
 let next () = let t = !toks.(!pos) in incr pos; t
 let next_int () = int_of_string (next ())
 
+let parse_files () : file list =
+  let nfiles = next_int () in
+  Stdlib.List.init nfiles (fun _ -> ()) |> Stdlib.List.map (fun () ->
+    let v = bytes_of_string (unhex (next ())) in
+    let ck = next () = "1" in
+    let ns = next_int () in
+    let stmts = Stdlib.List.init ns (fun _ -> ()) |> Stdlib.List.map (fun () -> bytes_of_string (unhex (next ()))) in
+    { f_version = v; f_stmts = stmts; f_ckpt = ck })
+
 let parse_run () : run =
   let order = match next () with "linear" -> Linear | "linear-skip" -> LinearSkip | "non-linear" -> NonLinear | s -> failwith ("order " ^ s) in
   let baseline = match next () with "-" -> None | h -> Some (bytes_of_string (unhex h)) in
@@ -107,6 +116,63 @@ let () =
             | p -> show_outcome (RPend p) in
           Printf.printf "%s pending=%s baseline=%s\n" id ps
             (match w with None -> "-" | Some r -> hexb r.r_version)
+        | "cli" ->
+          (* CLI agreement stage: a list of self-contained queries
+             (directory, observed database state, command) *)
+          let nq = next_int () in
+          for q = 0 to nq - 1 do
+            let files = parse_files () in
+            let has_table = next () = "1" in
+            let dirty = next () = "1" in
+            let nrev = next_int () in
+            let revs = Stdlib.List.init nrev (fun _ -> ()) |> Stdlib.List.map (fun () ->
+              let v = bytes_of_string (unhex (next ())) in
+              let a = next_int () in let t = next_int () in
+              let e = next () = "1" in
+              let k = next_int () in
+              { r_version = v; r_applied = nat_of_int a; r_total = nat_of_int t; r_hashes = []; r_err = e; r_kind = n_of_int k }) in
+            let revs = read_revisions revs in
+            let text = match next () with
+              | "S" ->
+                (match report has_table dirty files revs with
+                 | SOk s ->
+                   Printf.sprintf "status=%s cur=%s next=%s count=%d total=%d pend=[%s] ooo=[%s] applied=[%s] avail=[%s] err=%s"
+                     (if s.s_ok then "OK" else "PENDING")
+                     (match s.s_current with CurNone -> "none" | CurVer v -> "v" ^ hexb v)
+                     (match s.s_next with NextEmpty -> "-" | NextLatest -> "latest" | NextVer v -> "v" ^ hexb v)
+                     (int_of_nat s.s_count) (int_of_nat s.s_total) (show_files s.s_pending) (show_files s.s_ooo)
+                     (String.concat " " (Stdlib.List.map (fun r ->
+                        Printf.sprintf "%s:%d:%d" (hexb r.r_version) (int_of_nat r.r_applied) (int_of_nat r.r_total)) s.s_applied))
+                     (show_files s.s_available) (b2s s.s_error)
+                 | SErr PNotClean -> "status=err:notclean"
+                 | SErr (PMissing v) -> "status=err:missing:" ^ hexb v
+                 | SErr p -> "status=err:" ^ show_outcome (RPend p)
+                 | SFileNotFound v -> "status=err:filenotfound:" ^ hexb v
+                 | SPanic -> "status=err:panic")
+              | "A" ->
+                let order = match next () with "linear" -> Linear | "linear-skip" -> LinearSkip | "non-linear" -> NonLinear | s -> failwith ("order " ^ s) in
+                let baseline = match next () with "-" -> None | h -> Some (bytes_of_string (unhex h)) in
+                let allow = next () = "1" in
+                let n = next_int () in
+                let c = { c_order = order; c_baseline = baseline; c_allow_dirty = allow; c_dirty = dirty } in
+                let (p, wr) = apply_plan c (nat_of_int n) files revs in
+                Printf.sprintf "plan=%s baseline=%s"
+                  (match p with
+                   | PFiles fs -> "files:" ^ show_files fs
+                   | PNonLinear (s, _) -> "nonlinear:" ^ show_files s
+                   | p -> show_outcome (RPend p))
+                  (match wr with None -> "-" | Some r -> hexb r.r_version)
+              | "T" ->
+                let arg = match next () with "-" -> None | h -> Some (bytes_of_string (unhex h)) in
+                (match migrate_set arg files revs with
+                 | SetOk t -> Printf.sprintf "set=ok table=[%s]" (String.concat " " (Stdlib.List.map (fun r ->
+                     Printf.sprintf "%s:%d:%d:%s:%d" (hexb r.r_version) (int_of_nat r.r_applied) (int_of_nat r.r_total) (b2s r.r_err) (int_of_n r.r_kind))
+                     (read_revisions t)))
+                 | SetNotFound -> "set=notfound"
+                 | SetArgs -> "set=args")
+              | k -> failwith ("query " ^ k) in
+            Printf.printf "%s q%d %s\n" id q text
+          done
         | m -> failwith ("mode " ^ m)
       end
     done
